@@ -139,8 +139,22 @@ template <class T, int MODE> static void arc_prop(pbt::Ctx& c) {
 		if (tl.total < NONTRIV && A.theta > 1e-6L && A.theta < PI_L - 1e-6L && a != 0 && a != 1 && (MODE != M_SPIN || k != 0)) c.nontrivial();
 		char what[200];
 		snprintf(what, sizeof what, "%s(x=%s, y=%s, a=%.17g, k=%d)", fn, qstr(x).c_str(), qstr(y).c_str(), (double)a, k);
-		if (!within(c, MODE == M_SLERP ? "slerp |len-1| err/tol" : MODE == M_SPIN ? "slerp-spin |len-1| err/tol" : "mix |len-1| err/tol", e.unit, tl.total))
-			c.failk(key(fn, ty, "unit-length", zk, tr), "%s=%s has length 1%+.3Lg (bound %.3Lg, theta=%.9Lg)", what, qstr(g).c_str(), norm4(rg) - 1, tl.total, A.theta);
+		// the length of the sine-formula result hardly depends on the computed angle (both coefficients use the same theta_c): its own bound
+		// replaces the conditioning term sens * dtheta of the arc position by |d|r|/dtheta_c| * dtheta. Only in the generic zone (the linear
+		// fallback is not admissible there) and without spins.
+		R tol_unit = tl.total;
+		if (S.zone == Z_GENERIC && k == 0 && !S.ambiguous && A.sn * A.sn > 16 * EPS<T>()) {
+			const R th = A.theta, u = U<T>();
+			const R s1 = sinl((1 - ra) * th), s2 = sinl(ra * th), c1 = cosl((1 - ra) * th), c2 = cosl(ra * th), sn = A.sn, cs = A.cs;
+			const R dN = 2 * s1 * c1 * (1 - ra) + 2 * s2 * c2 * ra + 2 * cs * ((1 - ra) * c1 * s2 + ra * c2 * s1);
+			const R sens_len = rabs(dN / (2 * sn * sn) - cs / sn);
+			const R Aterm = 2 * (rabs(tl.k0) + rabs(tl.k1)) + 1, Bterm = 1.5L * (rabs(psi) + rabs(th - psi)) / sn, dth = 1.5L * 4 * u / sn + 2 * u * th;
+			const R tu = 4 * (u * (Aterm + Bterm) + sens_len * dth);  // x4 margin: the observed maximum on the pinned tree is 0.22 of this bound (quick and thorough tiers)
+			if (tu < tol_unit) tol_unit = tu;
+			c.metric(MODE == M_SLERP ? "slerp |len-1| err/unit-bound" : "mix |len-1| err/unit-bound", (double)(e.unit / tol_unit));
+		}
+		if (!within(c, MODE == M_SLERP ? "slerp |len-1| err/tol" : MODE == M_SPIN ? "slerp-spin |len-1| err/tol" : "mix |len-1| err/tol", e.unit, tol_unit))
+			c.failk(key(fn, ty, "unit-length", zk, tr), "%s=%s has length 1%+.3Lg (bound %.3Lg, theta=%.9Lg)", what, qstr(g).c_str(), norm4(rg) - 1, tol_unit, A.theta);
 		if (!within(c, MODE == M_SLERP ? "slerp off-plane err/tol" : MODE == M_SPIN ? "slerp-spin off-plane err/tol" : "mix off-plane err/tol", e.plane, tl.total))
 			c.failk(key(fn, ty, "leaves-plane", zk, tr), "%s=%s is %.3Lg away from span{x,y} (bound %.3Lg, theta=%.9Lg)", what, qstr(g).c_str(), e.plane, tl.total, A.theta);
 		if (!within(c, MODE == M_SLERP ? "slerp angle err/tol" : MODE == M_SPIN ? "slerp-spin angle err/tol" : "mix angle err/tol", e.angle, tl.total)) {
